@@ -189,7 +189,7 @@ void scen_c04(mt_case * c) {
      run queue (threads that yielded there, possibly holding a mutex) can only go on by being stolen */
   for (int t = 0; t <= P.T; t++) {
     for (int i = 0; i < n_occupiers; i++) if (occ_pos[i] == t) Z0(myth_create_ex(&oc[i], 0, occupier, 0));
-    if (t < P.T) Z0(myth_create_ex(&th[t], 0, body, (void *)(intptr_t)t));
+    if (t < P.T) Z0(mt_create(&th[t], body, (void *)(intptr_t)t));
   }
   for (int t = 0; t < P.T; t++) { Z0(myth_join(th[t], 0)); mv_progress(); }
   for (int i = 0; i < n_occupiers; i++) { Z0(myth_join(oc[i], 0)); mv_progress(); }
